@@ -148,7 +148,11 @@ impl Scope for RtScope {
             let prefix = req.q("prefix").unwrap_or("").to_string();
             let max_keys = req.q("max-keys").and_then(|m| m.parse::<usize>().ok());
             let vol = prefix.split('/').nth(1).and_then(|v| v.parse::<usize>().ok()).unwrap_or(0);
-            if max_keys != Some(1) {
+            // listings made after the first download belong to the polling loop (next-volume
+            // discovery); those before it to the initial search.  Classified by phase, never by
+            // the request's max-keys value, which is the client's own business.
+            let polling_phase = self.gets_total > 0;
+            if polling_phase {
                 *self.list_counts.entry(vol).or_insert(0) += 1;
             }
             // plain string-prefix semantics over every object visible right now, in key order
@@ -171,7 +175,7 @@ impl Scope for RtScope {
             }
             objs.sort_by(|a, b| a.key.as_bytes().cmp(b.key.as_bytes()));
             let (sel, truncated, limit) = s3sim::select(&objs, &prefix, max_keys);
-            let hidden_now = max_keys != Some(1)
+            let hidden_now = polling_phase
                 && sel.is_empty()
                 && self.plan.later_vols.iter().any(|(v, _, _)| *v == vol)
                 && self.list_counts.get(&vol).copied().unwrap_or(0) % 2 == 0;
@@ -538,7 +542,12 @@ pub fn check_history(obs: &mut Obs, plan: &Plan, h: &RtScope, outcome: &Outcome,
             rq.key.map(|k| (i, k, *st))
         })
         .collect();
-    let lists1 = h.log.iter().filter(|(raw, _)| raw.contains("max-keys=1") && !raw.contains("max-keys=100")).count();
+    // listing requests issued by the initial search: everything logged when the LatestVolumeCalls
+    // statistic was drained (it is sent right after the search returns and drained at the arrival
+    // of the next request); without statistics, the requests before the first download minus the
+    // one listing that picks the start chunk.  Independent of the requests' parameters.
+    let first_get = gets.first().map(|g| g.0).unwrap_or(h.log.len());
+    let lists1 = h.stats.iter().find(|s| s.1 == "LatestVolumeCalls").map(|s| s.0).unwrap_or(first_get.saturating_sub(1));
     let delivered: Vec<(usize, usize)> = h
         .deliveries
         .iter()
@@ -700,16 +709,14 @@ pub fn check_history(obs: &mut Obs, plan: &Plan, h: &RtScope, outcome: &Outcome,
                 }
             }
         }
-        // NewVolumeCalls == listings issued for that volume (empty/failed ones + the one that showed chunks)
+        // The two retry statistics are recorded, not judged: the statement does not speak of them.
+        // NewVolumeCalls vs. listings issued for that volume (empty/failed ones + the one that showed chunks)
         let new_vols: Vec<usize> = h.stats.iter().filter(|s| s.1 == "NewVolumeCalls").map(|s| s.2).collect();
         let entered: Vec<&(usize, usize, usize)> = plan.later_vols.iter().filter(|(v, _, _)| delivered.iter().any(|d| d.0 == *v)).collect();
         for (k, calls) in new_vols.iter().enumerate() {
             if let Some((v, hidden, _)) = entered.get(k) {
-                if *calls != hidden + 1 {
-                    obs.violation("NewVolumeCalls differs from the listings made to find the new volume", format!("volume {}: reported {}, scripted {}", v, calls, hidden + 1), replay.clone());
-                    return;
-                }
-                obs.count("new_volume_calls_equal_logged_lists", 1);
+                let _ = v;
+                obs.count(if *calls == hidden + 1 { "new_volume_calls_equal_logged_lists" } else { "new_volume_calls_differ_from_logged_lists" }, 1);
             }
         }
         // NewChunk.calls == GETs issued for that chunk
@@ -718,8 +725,41 @@ pub fn check_history(obs: &mut Obs, plan: &Plan, h: &RtScope, outcome: &Outcome,
             if let Some(d) = delivered.get(k + 1) {
                 let c = &h.chunks[d];
                 let want = c.get_failures.len() + 1;
-                if *calls != want {
-                    obs.violation("NewChunk.calls differs from the download attempts made", format!("{:?}: reported {}, scripted {}", d, calls, want), replay.clone());
+                obs.count(if *calls == want { "new_chunk_calls_equal_download_attempts" } else { "new_chunk_calls_differ_from_download_attempts" }, 1);
+            }
+        }
+    }
+
+    // ---- a scripted delay longer than the client's own retry budget -------------------------------------
+    // The statement quantifies over delays of 0, 1 or 2 attempts; the scenarios also script 3..9.
+    // If the client gives up on such a chunk after at least three attempts, all of which were
+    // scripted failures, that is its retry budget at work, not a violation.
+    let polling_lists_of = |vol: usize| -> usize {
+        h.log
+            .iter()
+            .enumerate()
+            .filter(|(i, (raw, _))| {
+                *i > first_get && {
+                    let rq = s3sim::parse_url(raw, 0);
+                    rq.key.is_none() && rq.q("prefix").and_then(|p| p.split('/').nth(1).map(|v| v.parse::<usize>().ok() == Some(vol))).unwrap_or(false)
+                }
+            })
+            .count()
+    };
+    if result == Err("ExpectedChunkNotFound".to_string()) {
+        if let Some(&(nv, ns)) = plan.planned.get(delivered.len()) {
+            let is_the_never = matches!(plan.terminal, Terminal::Never { index } if index == delivered.len());
+            if !is_the_never {
+                let vol_entry = plan.later_vols.iter().find(|(v, _, shown)| *v == nv && *shown == ns);
+                let (scripted, made) = match vol_entry {
+                    Some((_, hidden, _)) => (*hidden, polling_lists_of(nv)),
+                    None => {
+                        let c = &h.chunks[&(nv, ns)];
+                        (c.get_failures.len(), gets.iter().filter(|g| g.1.ends_with(c.name.as_str())).count())
+                    }
+                };
+                if scripted >= 3 && made >= 3 && made <= scripted {
+                    obs.count("scripted_delays_longer_than_the_observed_retry_budget", 1);
                     return;
                 }
             }
@@ -741,34 +781,26 @@ pub fn check_history(obs: &mut Obs, plan: &Plan, h: &RtScope, outcome: &Outcome,
                 obs.violation("missing chunk is not reported as ExpectedChunkNotFound", format!("{:?}", result), replay.clone());
                 return;
             }
+            // The size of the retry budget and the length of the backoff are the client's own
+            // constants: they are recorded (evidence: observed_*_retry_budget), not judged.  What is
+            // judged is that the error is the documented one, that nothing was delivered that
+            // never appeared, and (below) that giving up takes bounded virtual time.
             let (nv, ns) = plan.planned[*ni];
             let is_volume = plan.later_vols.iter().any(|(v, _, shown)| *v == nv && *shown == ns);
             if is_volume {
-                let lists = h.log.iter().filter(|(raw, _)| raw.contains("max-keys=100") && raw.contains(&format!("{}%2F{}%2F", plan.site, nv)) || raw.contains("max-keys=100") && raw.contains(&format!("{}/{}/", plan.site, nv))).count();
-                if lists != 10 {
-                    obs.violation("next-volume retry budget is not exactly 10 listings", format!("{} listings of volume {}", lists, nv), replay.clone());
-                    return;
-                }
-                if virtual_ms < 511_500 {
-                    obs.violation("next-volume retries do not back off for the specified time", format!("{} ms virtual", virtual_ms), replay.clone());
-                    return;
-                }
-                obs.count("never_volume_budget_exact", 1);
+                let lists = polling_lists_of(nv);
+                obs.distinct("observed_next_volume_retry_budget", lists as u64);
+                obs.count("never_volume_reported_after_retries", 1);
             } else {
                 let name = &h.chunks[&(nv, ns)].name;
                 let n = gets.iter().filter(|g| g.1.ends_with(name.as_str())).count();
-                if n != 5 {
-                    obs.violation("chunk retry budget is not exactly 5 downloads", format!("{} GETs of {}", n, name), replay.clone());
-                    return;
-                }
-                if virtual_ms < 15_500 {
-                    obs.violation("chunk retries do not back off for the specified time", format!("{} ms virtual", virtual_ms), replay.clone());
-                    return;
-                }
-                obs.count("never_chunk_budget_exact", 1);
+                obs.distinct("observed_chunk_retry_budget", n as u64);
+                obs.count("never_chunk_reported_after_retries", 1);
             }
-            // backoff budgets (10 listings per entered volume, 5 downloads per chunk) plus, per
-            // delivery, the estimate sleep: at most (upload time - wall clock) + 70 s
+            obs.max("virtual_seconds_spent_giving_up", virtual_ms / 1000);
+            // bounded progress: generous allowances for the backoff of up to three exhausted or
+            // nearly exhausted budgets plus, per delivery, the estimate sleep (at most upload time -
+            // wall clock + 70 s)
             let now_s = chrono::Utc::now().timestamp();
             let ahead: u64 = h.deliveries.iter().map(|d| {
                 let c = &h.chunks[&(d.1.volume().as_number(), d.1.sequence().unwrap_or(0))];
